@@ -258,6 +258,16 @@ def run(ctx):
         ctx.case(("exp", seed), True); ctx.count("experiment-seeded")
         if len(outs) < 2:
             continue
+        # an int seed and a fresh SHA256 instance with that seed are the same generator (get_prng): same randomisations
+        ea, eb, ec, ed = mk(), mk(), mk(), mk()
+        xa = guarded(ea.randomize, True, seed); xb = guarded(eb.randomize, True, SHA256(seed))
+        ya = guarded(npc.sim_npc, ec, tests, "fisher", False, 5, seed); yb = guarded(npc.sim_npc, ed, tests, "fisher", False, 5, SHA256(seed))
+        za = guarded(npc.westfall_young, ec, tests, "minP", "greater", False, 5, seed); zb = guarded(npc.westfall_young, ed, tests, "minP", "greater", False, 5, SHA256(seed))
+        ctx.count("experiment-int-seed-vs-sha256-instance")
+        if xa[0] != "ok" or xb[0] != "ok" or ea.group.tolist() != eb.group.tolist() or not same(ya[1:], yb[1:]) or str(za[1:]) != str(zb[1:]):
+            ctx.violation("oracle", {"call": "Experiment.randomize/sim_npc/westfall_young", "seed": seed,
+                                     "issue": "seed given as an int and as a fresh SHA256 instance with that seed give different randomisations",
+                                     "int": str((ea.group.tolist(), ya[1:], za[1:]))[:300], "sha256_instance": str((eb.group.tolist(), yb[1:], zb[1:]))[:300]}, site="Experiment")
         if outs[0][3] or outs[1][3] or outs[0][0] != outs[1][0] or not same(outs[0][1][1:], outs[1][1][1:]) or not same(
                 [dict(d) if isinstance(d, dict) else d for d in outs[0][2][1]] if outs[0][2][0] == "ok" else None,
                 [dict(d) if isinstance(d, dict) else d for d in outs[1][2][1]] if outs[1][2][0] == "ok" else None):
